@@ -11,7 +11,7 @@ git -C /repo worktree add -q --detach "$wt" HEAD || { echo "$name WORKTREE-FAILE
 if ! git -C "$wt" apply "$d/patch.diff" 2>/dev/null; then
   echo "$name patch-does-not-apply-to-current-HEAD" | tee "$d/detection.txt"
 else
-  out=$(cd /verif && GOTRANX_REPO="$wt" ./check "$pid" --tier quick 2>&1)
+  out=$(cd /verif && GOTRANX_REPO="$wt" ./check "$pid" --tier quick ${SEED_MATRIX_SEED:+--seed $SEED_MATRIX_SEED} 2>&1)
   nv=$(echo "$out" | grep -c "^VIOLATION")
   nf=$(echo "$out" | grep "^VIOLATION" | grep -vc "no-failing-input-found")
   first=$(echo "$out" | grep -A1 "^VIOLATION" | sed -n 2p | cut -c1-220)
